@@ -635,6 +635,16 @@ func (e *Enc) blockCtx(at *ssa.BasicBlock, st *State, extra map[string]CVal) *Ct
 
 func (e *Enc) loopCtx(li *loopInfo, st *State, over map[*ssa.Phi]Term, extra map[string]CVal) *Ctx {
 	c := e.ctx(st, e.init, extra)
+	// enclosing loop (for outer(e)): the smallest other loop containing this header
+	var parent *loopInfo
+	for _, l2 := range e.loops {
+		if l2 != li && l2.blocks[li.header] && l2.snap != nil && (parent == nil || len(l2.blocks) < len(parent.blocks)) {
+			parent = l2
+		}
+	}
+	if parent != nil {
+		c.outer = e.loopCtx(parent, parent.snap, parent.phiSnap, nil)
+	}
 	c.local = func(name string) (CVal, bool) {
 		vs := e.debugVals[name]
 		// hidden loop variables (range index) are addressed by the phi comment
@@ -824,6 +834,7 @@ func (e *Enc) writeSetOf(instrs []ssa.Instruction, inRegion func(ssa.Instruction
 				d, v := mapHeapNames(mt)
 				ws.coarse[d] = arrSort(arrSort2(e.reg.sortOf(mt.Key()), sBool))
 				ws.coarse[v] = arrSort(arrSort2(e.reg.sortOf(mt.Key()), e.reg.sortOf(mt.Elem())))
+				ws.sorts[d], ws.sorts[v] = ws.coarse[d], ws.coarse[v]
 			case *ssa.Call:
 				ws.alloc = true
 				if callee := x.Call.StaticCallee(); callee != nil {
@@ -938,6 +949,12 @@ func (e *Enc) targetWrites(ws *writeSet, call *ssa.Call, callee *ssa.Function, t
 	}
 	if t.Elems {
 		bt := typeOf(t.Base)
+		if mt, ok := bt.Underlying().(*types.Map); ok {
+			dName, vName, _, _, dSort, vArrSort := e.mapSorts(mt)
+			ws.coarse[dName], ws.coarse[vName] = dSort, vArrSort
+			ws.sorts[dName], ws.sorts[vName] = dSort, vArrSort
+			return
+		}
 		sl, ok := bt.Underlying().(*types.Slice)
 		if !ok {
 			panic(evalError{"modifies target " + t.Text + ": not a slice"})
@@ -1094,6 +1111,12 @@ func (e *Enc) evalTarget(c *Ctx, t Target) []modRef {
 	}
 	b := c.eval(t.Base)
 	if t.Elems {
+		if mt, ok := b.GT.Underlying().(*types.Map); ok {
+			dName, vName, _, _, dSort, vArrSort := e.mapSorts(mt)
+			ref := e.def("modmap", b.T)
+			out = append(out, modRef{t: t, heapName: dName, heapSort: dSort, ref: ref}, modRef{t: t, heapName: vName, heapSort: vArrSort, ref: ref})
+			return out
+		}
 		sl, ok := b.GT.Underlying().(*types.Slice)
 		if !ok {
 			cfail("modifies %s: base is not a slice", t.Text)
